@@ -478,6 +478,11 @@ func (e *SpecEnv) sel(v Val, f string, ex Expr) Val {
 		case "val":
 			return mkInt("(i_val " + v.T + ")")
 		}
+		// an interface value boxed at this very call site (`&invoke.Args{...}` passed as CNIArgs):
+		// its dynamic value is statically known, fields are those of the boxed value
+		if v.Inner != nil {
+			return e.sel(*v.Inner, f, ex)
+		}
 	}
 	path, ok := findField(v.Ty, f, 4)
 	if !ok {
